@@ -6,22 +6,31 @@ structural necessary conditions of the two copies of the algorithm
 immutable.happiness_upload._compute_maximum_graph) and of their shared helpers
 (DESIGN.md section 5, C08)."""
 from sa.h import *
-from sa.rules.C07 import (Flow, PairRecord, body_skips, container_stores, creators_of, ek_confinement_rule, enclosing_for,
+from sa.rules.C07 import (Flow, PairRecord, TableUse, body_skips, container_stores, creators_of, def_value, ek_confinement_rule,
+                          enclosing_for,
                           escaping_stores2, fact_gate, fresh_mutable, fromkeys_shared, iter_node, loops_over,
                           no_persistent_state_rule, on_cycle, r9_alias, returned_name, shared_slots, sink_terms, unwrap,
                           unwrap_view)
 
 EXPLANATION = (
+    "The Edmonds-Karp loop of each copy is found by role: in the copy itself, or in the one package function the copy calls "
+    "(call graph) that recomputes residual_network and updates the flow table; for such a helper the flow network is the "
+    "copy's argument for the helper's network parameter and the flow table / residual graph are the local names the copy "
+    "binds the helper's returned tuple (or one element of it) to.  A loop shared by both copies is reported once. "
     "Decided (structural, all paths), in BOTH copies of Edmonds-Karp: (1) derived-value freshness: after any store to "
     "flow_function[.][.] the pair (residual_graph, residual_function) is recomputed by residual_network(<the flow "
     "network>, flow_function) before residual_graph/residual_function is read again (loop test, path search, delta, "
-    "read-back); the loop test and the path search use the same residual graph; (2) skew-symmetric update: per edge "
+    "read-back); the loop test and the path search use the same residual graph; a local that remembers the augmenting "
+    "path (`path = augmenting_path_for(rg)` before the loop and at the end of its body) is searched again after the "
+    "residual network was recomputed, before it is tested or applied; (2) skew-symmetric update: both stores sit in the "
+    "body of the loop over the path's edges (not after it, not in its else clause): per edge "
     "(u, v) of the augmenting path f[u][v] += d and f[v][u] -= d with the same d = min of the residual capacities "
     "along that path; the flow matrix and the residual tables are built with distinct row objects; (3) index-space "
     "agreement: happinessutil._reindex numbers servers from base_index=1 and shares directly after them, "
     "_flow_network_for puts the source row first, one row per server in numbering order, num_shares rows [sink] and "
     "the empty sink row last with sink = num_servers + num_shares + 1, servers_of_happiness sums flow_function[0][v] "
-    "over range(1, num_servers + 1) with num_servers = len of the same server map, augmenting_path_for searches "
+    "over range(1, num_servers + 1) with num_servers = len of the same server map (also as the slice [1:num_servers + 1] "
+    "of the source row or the whole row) and flow_function the table of the finished loop, augmenting_path_for searches "
     "from vertex 0 to vertex len(graph) - 1, residual_network reverses exactly the saturated edges; (4) BFS "
     "discipline: a vertex is enqueued only when WHITE, after it was coloured and given its predecessor; (5) the graph is "
     "built from a faithful inversion of the share map: in shares_by_server every iteration for (share, server) ends with "
@@ -40,6 +49,9 @@ EXPLANATION = (
     "Deliberately not demanded (no effect on the value): the order of the edges inside the augmenting path, the residual "
     "capacity entries of the direction that is not a residual edge (cf = -1 / 0, never read), bfs distance and BLACK "
     "bookkeeping, how the per-vertex tables are spelled ([x for ..] or [x] * n). "
+    "Undecided (ANALYSIS-ERROR, never a pass): a loop reached through more than one call, split over several helpers, or "
+    "whose result is not bound as `a, b = helper(..)` / `a = helper(..)` / `a = helper(..)[i]` with the helper returning "
+    "plain names. "
     "Undecided: whether remembered state (6) is keyed by the full contents of the map (such a cache would be correct; it is "
     "reported as well - statistics that are only written and values built once from constants are recognised and not "
     "reported); whether a writer other than the augmentation pair (7) happens to leave a valid flow; "
@@ -134,6 +146,155 @@ def _ek_anchor(fn):
     return cfg, rec, rg, rf, ff.pop(), ffs, upd
 
 
+def _has_residual_recompute(fn) -> bool:
+    return any(isinstance(x, ast.Assign) and isinstance(x.value, ast.Call) and call_tail(x.value) == "residual_network"
+               for x in func_own_nodes(fn))
+
+
+class _Locus:
+    """Where the Edmonds-Karp loop of one copy lives: in the copy itself (direct) or in the one package function the
+    copy calls that recomputes the residual network and updates the flow table (found through the call graph).  For a
+    helper: `call`/`callnode` are the call in the copy, `names` maps the copy's local names to what the helper returns
+    under them ('flow' = the flow table, 'rgraph' = the residual graph, 'rfunc' = the residual capacities), `net_expr`
+    is the copy's argument for the helper's flow-network parameter `net_param`."""
+    direct = True
+    call = callnode = net_expr = net_param = None
+    names = {}
+
+
+def _ek_locus(idx, fn) -> _Locus:
+    L = _Locus()
+    L.copy = L.fn = fn
+    if _has_residual_recompute(fn):
+        return L
+    cg = get_callgraph(idx)
+    found = []
+    for c in [x for x in func_own_nodes(fn) if isinstance(x, ast.Call)]:
+        for g in cg.resolve(fn, c):
+            if isinstance(g, FuncInfo) and not isinstance(g.node, ast.Lambda) and _has_residual_recompute(g):
+                found.append((c, g))
+    if len(found) != 1:
+        raise AnchorVanished("%s: no `.. = residual_network(..)` and %d calls of a package function that has one" % (
+            fn.qual, len(found)))
+    c, g = found[0]
+    L.direct, L.fn, L.call = False, g, c
+    gcfg, rec, rg, rf, ff, _ffs, _upd = _ek_anchor(g)
+    role = {ff: "flow", rg: "rgraph", rf: "rfunc"}
+    # what the helper returns, by position (every return the same shape, made of plain names)
+    shapes = set()
+    for n in gcfg.find(is_return):
+        v = n.ast.value
+        if isinstance(v, ast.Tuple) and all(isinstance(e, ast.Name) for e in v.elts):
+            shapes.add(tuple(role.get(e.id) for e in v.elts))
+        elif isinstance(v, ast.Name):
+            shapes.add(role.get(v.id))
+        else:
+            shapes.add(False)
+    if len(shapes) != 1 or False in shapes:
+        raise AnchorVanished("%s: the Edmonds-Karp helper %s does not return its tables as one tuple of names / one name" % (
+            fn.qual, short(g)))
+    shape = shapes.pop()
+    # the helper's flow network is one of its parameters
+    gl = Flow(g)
+    nets = {gl.origin(n, arg(n.ast.value, 0, "graph")) if arg(n.ast.value, 0, "graph") is not None else "?" for n in rec}
+    pos = first_positional_params(g)
+    net = nets.pop() if len(nets) == 1 else None
+    if net not in pos or not all(gl.is_param(n, net) for n in rec):
+        raise AnchorVanished("%s: the residual network of the helper %s is not derived from one of its parameters" % (
+            fn.qual, short(g)))
+    L.net_param = net
+    if any(isinstance(a, ast.Starred) for a in c.args) or any(k.arg is None for k in c.keywords):
+        raise AnchorVanished("%s: %s is called with * / ** arguments" % (fn.qual, short(g)))
+    L.net_expr = arg(c, pos.index(net), net)
+    if L.net_expr is None:
+        raise AnchorVanished("%s: no argument for the flow network `%s` of %s" % (fn.qual, net, short(g)))
+    # how the copy binds the result
+    L.callnode = Flow(fn).node_of(c)
+    a = L.callnode.ast
+    names = {}
+    if L.callnode.kind == "stmt" and isinstance(a, ast.Assign) and len(a.targets) == 1:
+        t = a.targets[0]
+        if a.value is c and isinstance(shape, tuple) and isinstance(t, (ast.Tuple, ast.List)) and len(t.elts) == len(shape) \
+                and all(isinstance(e, ast.Name) for e in t.elts):
+            for (e, ro) in zip(t.elts, shape):
+                # one name for two positions (`_, _ = ..`) holds the last one
+                names[e.id] = ro
+        elif a.value is c and not isinstance(shape, tuple) and isinstance(t, ast.Name):
+            names[t.id] = shape
+        elif isinstance(a.value, ast.Subscript) and a.value.value is c and isinstance(t, ast.Name) and isinstance(shape, tuple) \
+                and isinstance(a.value.slice, ast.Constant) and isinstance(a.value.slice.value, int) \
+                and not isinstance(a.value.slice.value, bool) and -len(shape) <= a.value.slice.value < len(shape):
+            names[t.id] = shape[a.value.slice.value]
+        else:
+            names = None
+    else:
+        names = None
+    if names is None:
+        raise AnchorVanished("%s: the result of %s is not bound to local names (`a, b = %s(..)`, `a = %s(..)[i]`)" % (
+            fn.qual, short(g), g.name, g.name))
+    L.names = {k: v for (k, v) in names.items() if v}
+    return L
+
+
+class _Quiet:
+    """Second pass over a loop that both copies share: the obligation sites count for the second caller as well, the
+    findings were reported on the first pass."""
+
+    def __init__(self, r):
+        self.r = r
+
+    def site(self, *a, **k):
+        return self.r.site(*a, **k)
+
+    def count(self, n):
+        return self.r.count(n)
+
+    def violation(self, *a, **k):
+        return None
+
+    def require(self, cond, *a, **k):
+        return bool(cond)
+
+
+def _loci(idx, r):
+    """(copy, locus, rule instance to report through) for both copies; a shared helper is reported once."""
+    seen = set()
+    for q in COPIES:
+        fn = idx.func(q)
+        L = _ek_locus(idx, fn)
+        if not L.direct:
+            r.site(fn, L.call, "Edmonds-Karp loop in %s" % short(L.fn))
+        rr = _Quiet(r) if L.fn.qual in seen else r
+        seen.add(L.fn.qual)
+        yield fn, L, rr
+
+
+def _reaching_values(fl, n, name):
+    """[(def node, value)] of every definition of plain name `name` that reaches n; None when one of them is a
+    parameter or an opaque binding."""
+    ds = fl.rd.get(n.id, {}).get(name)
+    if not ds:
+        return None
+    out = []
+    for d in sorted(ds):
+        if d < 0:
+            return None
+        v = def_value(fl.cfg.nodes[d], name)
+        if v is None:
+            return None
+        out.append((fl.cfg.nodes[d], v))
+    return out
+
+
+def _common_value(fl, n, name):
+    """The defining expression of `name` at n when all reaching definitions have one normal form (e.g. the path
+    searched before the loop and again at the end of its body); freshness of the operands is a separate matter."""
+    ds = _reaching_values(fl, n, name)
+    if ds and len({norm_plain(v) for (_d, v) in ds}) == 1:
+        return ds[0][1]
+    return None
+
+
 def _inversion_loops(fn, sm):
     """The nested loops of an inversion of the share map `sm` (share -> servers): (outer For, inner For, server variable,
     share variable) for `for s, ps in sm.items(): for p in ps:` or `for s in sm: for p in sm[s]:`."""
@@ -164,9 +325,12 @@ def run(ctx: Context):
     # ------------------------------------------------------------------ 1
     with ctx.rule("C08.1", "R2", "derived-value freshness: between a store to flow_function[.][.] and the next read of "
                   "residual_graph / residual_function the pair is recomputed by residual_network(network, flow_function); "
-                  "loop test and path search read the same residual graph (both copies)", expected=8) as r:
-        for q in COPIES:
-            fn = idx.func(q)
+                  "loop test and path search read the same residual graph; a remembered augmenting path is searched again "
+                  "after the flow changed before it is tested or applied (both copies, in the function that holds the loop)",
+                  expected=8) as r0:
+        for (_copy, L, r) in _loci(idx, r0):
+            fn = L.fn
+            q = fn.qual
             fl = Flow(fn)
             cfg, rec, rg, rf, ff, ffs, upd = _ek_anchor(fn)
             # the network the residual is derived from: one origin for every recomputation, not the residual itself
@@ -189,15 +353,37 @@ def run(ctx: Context):
             def is_rec(n, _r=rec):
                 return any(n is x for x in _r)
 
+            # names that remember an augmenting path: derived from the residual graph (stale once that is replaced; the
+            # loop that applies the path may go on with it while the graph is recomputed edge by edge)
+            pdefs = [n for n in cfg.stmt_nodes() if n.kind == "stmt" and isinstance(n.ast, ast.Assign)
+                     and len(n.ast.targets) == 1 and isinstance(n.ast.targets[0], ast.Name)
+                     and isinstance(n.ast.value, ast.Call) and call_tail(n.ast.value) == "augmenting_path_for"]
+            pnames = {n.ast.targets[0].id for n in pdefs}
+            uheads = set()
+            for u_ in upd:
+                enc = enclosing_for(fn, u_.ast)
+                if enc:
+                    uheads.add(iter_node(cfg, enc[-1]).id)
+
+            def is_pdef(n, _p=pdefs):
+                return any(n is x for x in _p)
+
+            # state: (residual pair stale, remembered path stale, inside the loop that applies the path)
             def transfer(n, lab, nxt, st):
                 if n.kind in ("entry", "exit", "raise"):
                     return st
+                stale, pstale, inl = st
+                if n.id in uheads:
+                    inl = lab == "iter"
                 if is_upd(n):
-                    return True
+                    return (True, pstale, inl)
                 if is_rec(n) and lab != "exc":
-                    return False
-                return st
-            visited, parent = explore(cfg, False, transfer)
+                    # the path was found in the residual graph that is replaced here
+                    return (False, True, inl)
+                if is_pdef(n) and lab != "exc":
+                    return (stale, False, inl)
+                return (stale, pstale, inl)
+            visited, parent = explore(cfg, (False, False, False), transfer)
             r.count(len(visited))
             reads = [n for n in cfg.nodes if n.kind not in ("entry", "exit", "raise") and ({rg, rf} & _loads(n))]
             if not reads:
@@ -205,12 +391,24 @@ def run(ctx: Context):
             done = set()
             for (nid, st) in sorted(visited):
                 n = cfg.nodes[nid]
-                if st and any(n is x for x in reads) and nid not in done:
+                if st[0] and any(n is x for x in reads) and nid not in done:
                     done.add(nid)
                     r.violation(fn, fn.loc(n.ast), "stale residual network: %s is read after flow_function was updated "
                                 "and before residual_network(..) recomputed it (path: %s)" % (
                                     "/".join(sorted({rg, rf} & _loads(n))), witness(cfg, parent, (nid, st)).brief()),
                                 witness(cfg, parent, (nid, st)))
+            pdone = set()
+            for (nid, st) in sorted(visited):
+                n = cfg.nodes[nid]
+                if not st[1] or nid in pdone or n.kind in ("entry", "exit", "raise") or not (pnames & _loads(n)):
+                    continue
+                if n.id in uheads and st[2]:
+                    continue        # the loop that applies the path goes on to its next edge
+                pdone.add(nid)
+                r.violation(fn, fn.loc(n.ast), "stale augmenting path: %s is used after the residual network was recomputed "
+                            "from the changed flow and before augmenting_path_for(%s) searched again - a path of the previous "
+                            "residual graph would be tested / applied (path: %s)" % ("/".join(sorted(pnames & _loads(n))), rg,
+                                                 witness(cfg, parent, (nid, st)).brief()), witness(cfg, parent, (nid, st)))
             # the loop test: a branch on augmenting_path_for(rg) (directly or through a local holding its result)
             apf = "augmenting_path_for(%s)" % rg
             plain = Normaliser(Env(None, depth=0))
@@ -219,7 +417,7 @@ def run(ctx: Context):
                 """Plain fact on the edge; a bare local is replaced by its unique reaching definition (one hop)."""
                 f = fact_on_edge(plain, n, lab)
                 if f and f[0] in ("truth", "false") and isinstance(n.ast, ast.Name):
-                    v = _fl.unique_def(n, n.ast.id)[1]
+                    v = _common_value(_fl, n, n.ast.id)
                     if v is not None:
                         return (f[0], norm_plain(v), None)
                 return f
@@ -235,8 +433,7 @@ def run(ctx: Context):
             def no_path_edge(n, lab):
                 f = fact1(n, lab)
                 return infeasible(n, lab) or (bool(f) and f[0] == "false" and f[1] == apf)
-            tests = [n for n in cfg.nodes if n.kind == "test" and has_path_edge(n, ("T", n.ast)) or
-                     (n.kind == "test" and (fact1(n, ("T", n.ast)) or ("", ""))[1] == apf)]
+            tests = [n for n in cfg.nodes if n.kind == "test" and (fact1(n, ("T", n.ast)) or ("", ""))[1] == apf]
             if not tests:
                 raise AnchorVanished("%s: loop test on augmenting_path_for(%s)" % (q, rg))
             for n in tests:
@@ -279,16 +476,20 @@ def run(ctx: Context):
     # ------------------------------------------------------------------ 2
     with ctx.rule("C08.2", "R5", "skew-symmetric flow update: for each edge (u, v) of the augmenting path f[u][v] += d and "
                   "f[v][u] -= d with the same d = min residual capacity along the path; flow matrix rows are distinct "
-                  "objects of dimension len(network) (both copies)", expected=8) as r:
-        for q in COPIES:
-            fn = idx.func(q)
+                  "objects of dimension len(network) (both copies, in the function that holds the loop)", expected=8) as r0:
+        for (_copy, L, r) in _loci(idx, r0):
+            fn = L.fn
+            q = fn.qual
             fl = Flow(fn)
             cfg, rec, rg, rf, ff, ffs, upd = _ek_anchor(fn)
             loops = {}
             for n in upd:
                 enc = enclosing_for(fn, n.ast)
                 if not enc:
-                    r.violation(fn, fn.loc(n.ast), "flow update outside the loop over the augmenting path")
+                    r.violation(fn, fn.loc(n.ast), "flow update %s outside the loop over the edges of the augmenting path: it is "
+                                "applied once per path (to whatever edge the loop variables were left on), not once per edge, so "
+                                "the flow over the other edges of the path loses its skew symmetry f[v][u] == -f[u][v] and an edge "
+                                "that a later path goes back over stays saturated" % src(fn, n.ast))
                     continue
                 loops.setdefault(id(enc[-1]), (enc[-1], []))[1].append(n)
             if not loops:
@@ -302,7 +503,7 @@ def run(ctx: Context):
                 u, v = tgt.elts[0].id, tgt.elts[1].id
                 head = iter_node(cfg, loop)
                 # iterable: the path found by augmenting_path_for(rg)
-                pv_ = fl.unique_def(head, loop.iter.id)[1] if isinstance(loop.iter, ast.Name) else loop.iter
+                pv_ = _common_value(fl, head, loop.iter.id) if isinstance(loop.iter, ast.Name) else loop.iter
                 po = norm_plain(pv_) if pv_ is not None else src(fn, loop.iter)
                 r.require(po == "augmenting_path_for(%s)" % rg, fn, fn.loc(loop),
                           "the update loop runs over %s, not over the augmenting path of %s" % (po, rg))
@@ -377,41 +578,74 @@ def run(ctx: Context):
         # ---- servers_of_happiness
         sh = idx.func(HZ + ":servers_of_happiness")
         sl = Flow(sh)
-        scfg, rec, rg, rf, ff, ffs, upd = _ek_anchor(sh)
+        scfg = sh.cfg()
         SM0 = first_positional_params(sh)[0]
-        nets = {sl.origin(n, arg(n.ast.value, 0, "graph")) for n in rec}
-        r.site(sh, rec[0].ast, "flow network of the share map")
+        L = _ek_locus(idx, sh)
+        if L.direct:
+            _c, rec, rg, rf, ff, ffs, upd = _ek_anchor(sh)
+            nets = {sl.origin(n, arg(n.ast.value, 0, "graph")) for n in rec}
+            net_at = rec[0].ast
+            flows = {ff}
+        else:
+            # the loop lives in a helper: the network is the argument for the helper's network parameter, the flow is
+            # the name the helper's flow table is bound to
+            nets = {sl.origin(L.callnode, L.net_expr)}
+            net_at = L.call
+            flows = {nm for (nm, ro) in L.names.items() if ro == "flow"}
+            ff = "/".join(sorted(flows)) or "<the flow table returned by %s>" % short(L.fn)
+        r.site(sh, net_at, "flow network of the share map")
         want_net = "_flow_network_for(shares_by_server(%s))" % SM0
-        r.require(nets == {want_net}, sh, sh.loc(rec[0].ast), "the flow network is %s, expected %s" % (sorted(nets), want_net))
+        r.require(nets == {want_net}, sh, sh.loc(net_at), "the flow network is %s, expected %s" % (sorted(nets), want_net))
         rets = [n for n in scfg.find(is_return) if not isinstance(n.ast.value, ast.Constant)]
         if len(rets) != 1:
             raise AnchorVanished("servers_of_happiness: result return")
         rv = rets[0].ast.value
         r.site(sh, rv, "flow value")
+
+        def is_flow(name_):
+            """the name holds the flow table of the finished Edmonds-Karp loop where the value is computed"""
+            if name_ not in flows:
+                return False
+            return L.direct or sl.unique_def(rets[0], name_)[0] is L.callnode
+
+        def servers_end(e):
+            """e = num_servers + 1 with num_servers = len(shares_by_server(sharemap))"""
+            if isinstance(e, ast.BinOp) and isinstance(e.op, ast.Add):
+                parts = [e.left, e.right]
+                one = [p_ for p_ in parts if isinstance(p_, ast.Constant) and p_.value == 1]
+                oth = [p_ for p_ in parts if not (isinstance(p_, ast.Constant) and p_.value == 1)]
+                return len(one) == 1 and len(oth) == 1 and sl.origin(rets[0], oth[0]) == "len(shares_by_server(%s))" % SM0
+            return False
+
+        def source_row(e):
+            return isinstance(e, ast.Subscript) and isinstance(e.value, ast.Name) and is_flow(e.value.id) \
+                and not isinstance(e.slice, ast.Slice) and norm_plain(e.slice) == "0"
         okv = False
         if isinstance(rv, ast.Call) and isinstance(rv.func, ast.Name) and rv.func.id == "sum" and len(rv.args) == 1 \
-                and isinstance(rv.args[0], (ast.ListComp, ast.GeneratorExp)) and len(rv.args[0].generators) == 1:
-            ge = rv.args[0]
-            g0 = ge.generators[0]
-            ns = _nested_subscript(ge.elt)
-            if ns and isinstance(g0.target, ast.Name) and not g0.ifs and isinstance(g0.iter, ast.Call) \
-                    and call_tail(g0.iter) == "range":
-                ra = g0.iter.args
-                lo = norm_plain(ra[0]) if len(ra) == 2 else "0"
-                hi = sl.origin(rets[0], ra[-1]) if ra else "?"
-                hi_e = ra[-1] if ra else None
-                # hi = num_servers + 1 with num_servers = len(shares_by_server(sharemap))
-                hi_ok = False
-                if isinstance(hi_e, ast.BinOp) and isinstance(hi_e.op, ast.Add):
-                    parts = [hi_e.left, hi_e.right]
-                    one = [p for p in parts if isinstance(p, ast.Constant) and p.value == 1]
-                    oth = [p for p in parts if not (isinstance(p, ast.Constant) and p.value == 1)]
-                    hi_ok = len(one) == 1 and len(oth) == 1 and \
-                        sl.origin(rets[0], oth[0]) == "len(shares_by_server(%s))" % SM0
-                okv = ns[0] == ff and norm_plain(ns[1]) == "0" and norm_plain(ns[2]) == g0.target.id and lo in ("0", "1") and hi_ok
+                and not rv.keywords:
+            a0 = rv.args[0]
+            if isinstance(a0, (ast.ListComp, ast.GeneratorExp)) and len(a0.generators) == 1:
+                # sum(f[0][v] for v in range(1, num_servers + 1))
+                g0 = a0.generators[0]
+                ns = _nested_subscript(a0.elt)
+                if ns and isinstance(g0.target, ast.Name) and not g0.ifs and isinstance(g0.iter, ast.Call) \
+                        and isinstance(g0.iter.func, ast.Name) and g0.iter.func.id == "range" and len(g0.iter.args) in (1, 2) \
+                        and not g0.iter.keywords:
+                    ra = g0.iter.args
+                    lo = norm_plain(ra[0]) if len(ra) == 2 else "0"
+                    okv = is_flow(ns[0]) and norm_plain(ns[1]) == "0" and norm_plain(ns[2]) == g0.target.id \
+                        and lo in ("0", "1") and servers_end(ra[-1])
+            elif isinstance(a0, ast.Subscript) and isinstance(a0.slice, ast.Slice) and source_row(a0.value):
+                # sum(f[0][1:num_servers + 1]); the entries of the source row that are not servers (the source itself,
+                # shares, sink) are never changed, so an open end is the same value
+                sl_ = a0.slice
+                okv = sl_.step is None and (sl_.lower is None or norm_plain(sl_.lower) in ("0", "1")) \
+                    and (sl_.upper is None or servers_end(sl_.upper))
+            elif source_row(a0):
+                okv = True
         r.require(okv, sh, sh.loc(rv), "the happiness value must be sum(%s[0][v] for v in range(1, num_servers + 1)) with "
-                  "num_servers = len(shares_by_server(%s)) - the flow out of the source into the server vertices; got %s" % (
-                      ff, SM0, src(sh, rv)))
+                  "num_servers = len(shares_by_server(%s)) and %s the flow table of the finished Edmonds-Karp loop - the flow "
+                  "out of the source into the server vertices; got %s" % (ff, SM0, ff, src(sh, rv)))
         empt = [n for n in scfg.find(is_return) if isinstance(n.ast.value, ast.Constant)]
         for n in empt:
             r.require(n.ast.value.value == 0, sh, sh.loc(n.ast), "an empty share map must have happiness 0")
@@ -871,9 +1105,30 @@ def run(ctx: Context):
     # ------------------------------------------------------------------ 7
     with ctx.rule("C08.7", "R5", "the flow table is always a flow: created zero (rule 2), it is written by nothing but the "
                   "augmentation pair along an augmenting path - no function it is handed to, no alias, no row object taken "
-                  "from it stores into it (both copies; interprocedural who-writes analysis)", expected=4) as r:
-        for q in COPIES:
-            ek_confinement_rule(r, idx.func(q), "Edmonds-Karp copy %s" % q.split(":", 1)[1], idx)
+                  "from it stores into it, neither in the function that holds the loop nor in the copy that gets the table "
+                  "back from it (both copies; interprocedural who-writes analysis)", expected=4) as r0:
+        for (copy, L, r) in _loci(idx, r0):
+            ek_confinement_rule(r, L.fn, "Edmonds-Karp copy %s" % copy.qual.split(":", 1)[1], idx)
+            if L.direct:
+                continue
+            # the table comes back to the copy: nothing there may store into it either
+            forced = {(L.callnode.id, nm): 2 for (nm, ro) in L.names.items() if ro == "flow"}
+            if not forced:
+                continue
+            tu = TableUse(idx)
+            s = tu.analyse(copy, forced=forced, root=True)
+            r0.count(s.states)
+            seen = set()
+            for (wf, wn, wt) in s.writes:
+                if id(wn) in seen:
+                    continue
+                seen.add(id(wn))
+                r0.violation(copy, copy.loc(wn), "%s: the flow table returned by %s is changed after the maximum flow was "
+                             "found: %s. The happiness value is read from this table, so it no longer is the value of the flow" % (
+                                 short(copy), short(L.fn), wt))
+            if s.unknown and not s.writes:
+                raise AnalysisError("%s: cannot decide who may change the flow table returned by %s: %s" % (
+                    copy.qual, short(L.fn), "; ".join("%s (line %s)" % (t, getattr(n_, "lineno", "?")) for (_f, n_, t) in s.unknown[:3])))
 
 
 def _origin_at_def(fl, use_node, via_name, x):
